@@ -143,4 +143,13 @@ def write_evidence(pid, args, seed, facts, prog, insts, stats, broken, known_hit
 
 
 if __name__ == "__main__":
-    sys.exit(main())
+    try:
+        rc = main()
+    except SystemExit:
+        raise
+    except BaseException as e:  # never let an internal error look like a verdict (exit 1)
+        import traceback
+        print("ERROR check-broken: internal error %s: %s" % (type(e).__name__, e))
+        traceback.print_exc()
+        rc = 2
+    sys.exit(rc)
